@@ -4,7 +4,8 @@ import numpy as np
 from harness import circgen as cg, logicsim_corr as lc, oracle_net as on, simops_corr as sc, simcheck as sk
 
 THEOREMS = ['C01_lut_correct', 'C01_dispatch2_correct', 'C01_select_prim', 'C01_opcodes_injective', 'C01_lanes',
-            'C01_build_ops_solution', 'C01_solution_unique', 'C01_logic2_gate_by_gate', 'C01_end_to_end_default', 'C01_build_total']
+            'C01_build_ops_solution', 'C01_solution_unique', 'C01_logic2_gate_by_gate', 'C01_end_to_end_default', 'C01_build_total',
+            'C01_cycles_iter_sem', 'C01_cycles_are_iter_sem', 'C01_cycle_next_state', 'C01_cycles_no_data_line', 'C01_gates_known_b_sound']
 
 
 def oracle_cycles(c, stim_bits, k):
@@ -29,7 +30,7 @@ def run(ck):
     rng = random.Random(ck.seed * 7919 + 1)
     nrng = np.random.default_rng(ck.seed + 1)
     ncirc = ck.scale(60, 1500)
-    coq_cases, meta, so_cases, sol_cases = [], [], [], []
+    coq_cases, meta, so_cases, sol_cases, line_cases = [], [], [], [], []
     fails = []
     for i in range(ncirc):
         c, a, sims, stim = sk.gen_case(rng, nrng, [0, 3])
@@ -60,6 +61,8 @@ def run(ck):
             coq_cases.append(lc.case2(c, reuse, strip, k, (stim[:, lane] == 3).tolist(), (s0[:, lane] == 3).tolist(),
                                       ((s1[:, lane] == 3) & mask).tolist()))
             meta.append(dict(desc, lane=lane))
+            line_cases.append(lc.case_line(c, strip, k, (stim[:, lane] == 3).tolist(), (s0[:, lane] == 3).tolist(),
+                                           ((s1[:, lane] == 3) & mask).tolist()))
         if i % 3 == 0:
             _, d = sc.run_impl(c, 1, 1, reuse, strip)
             so_cases.append((c, 1, 1, reuse, strip, d))
@@ -94,12 +97,24 @@ def run(ck):
                   idx3 == [], 'correspondence', '' if idx3 == [] else out3[-400:])
     ck.obligation(f'Coq model of LogicSim(m=2) s_to_c/c_prop/c_to_s/cycle = implementation on {len(coq_cases)} lanes',
                   allok and not mism, 'correspondence', f'failing cases {mism[:10]}')
+    # line-level k-cycle iteration: the definition the multi-cycle theorems are about
+    lchunks = [line_cases[i:i + 20] for i in range(0, len(line_cases), 20)]
+    louts = ck.coq_eval_many('lsl', [lc.line_cases_file(ch) for ch in lchunks])
+    lmism = [ci * 20 + j for ci, (ok, out) in enumerate(louts) for j in ((cg.parse_nat_list(out) if ok else None) or [])]
+    lran = all(ok and cg.parse_nat_list(out) is not None for ok, out in louts)
+    ck.obligation(f'line-level k-cycle iteration line_cycles / line_cycles_strip (Model/CycleSem.v, object of C01_cycles_are_iter_sem) = '
+                  f's[0], s[1] after LogicSim.cycle(k) on {len(line_cases)} lanes, for every c_reuse / strip_forks setting',
+                  lran and not lmism, 'correspondence', f'failing cases {lmism[:10]}' if lran else louts[0][1][-600:])
     ck.trust('modelled, not verified: SimOps.__init__ and LogicSim s_to_c/c_prop/c_to_s/s_ppo_to_ppi/cycle (hand-written Gallina '
              'in Model/SimOps.v, Model/LogicSimModel.v, tied by exact comparison on generated circuits); the main end-to-end '
-             'theorem (netlist semantics) is not yet proved as one statement')
+             'theorem (netlist semantics) is not yet proved as one statement; the multi-cycle theorems (C01_cycles_are_iter_sem) are about the '
+             'line-level iteration of Model/CycleSem.v, tied to LogicSim.cycle by exact comparison of s[0], s[1] after k cycles')
     for kind, desc, what in fails[:5]:
         ck.fail(f'logicsim2:{kind}', 'LogicSim(m=2) ' + what, {'component': 'logic_sim.LogicSim m=2', 'input': desc, 'actual': what})
     if not fails:
+        for j in lmism[:3]:
+            ck.fail('model-disagrees', 'Coq line-level cycle model and implementation disagree',
+                    {'component': 'Model/CycleSem.v: line_case2', 'input': meta[j], 'broken': ['correspondence LogicSim.cycle line level']}, found_input=False)
         for j in mism[:3]:
             # model and implementation disagree but the oracle found nothing wrong with the implementation
             ck.fail('model-disagrees', 'Coq model and implementation disagree',
